@@ -465,6 +465,7 @@ var searchM = flag.Int("sm", 4, "search: max members")
 var searchT = flag.Int("st", 3, "search: max topics")
 var searchP = flag.Int("sp", 4, "search: max partitions per topic")
 
+var huntK = flag.Int("huntk", 0, "hunt: use near-balanced states perturbed by up to this many claim moves")
 var hunt = flag.Int("hunt", 0, "hunt mode: run this many forged small states looking for the revert branch of balance() (needs a tree with a sticky.revert report)")
 
 // doHunt looks for inputs that take the revert branch of balance(); prints them (with the number of fixed members).
@@ -475,6 +476,13 @@ func doHunt(seed int64, n int) {
 	nonInitN, nonInitPicks := 0, 0
 	for i := 0; i < n; i++ {
 		in := bg.Adversarial(r, *searchM, *searchT, *searchP)
+		if *huntK > 0 {
+			var ok bool
+			in, ok = bg.NearBalanced(r, *searchM, *searchT, *searchP, 1+r.Intn(*huntK))
+			if !ok {
+				continue
+			}
+		}
 		run := bg.RunSticky(in)
 		if run.Hang {
 			hangs++
